@@ -28,11 +28,13 @@ type c02tok struct {
 }
 
 type c02plan struct {
-	Cfg   hx.Config
-	Bytes []byte
-	Cuts  []int
-	Toks  []c02tok
-	Kind  string
+	Cfg     hx.Config
+	Bytes   []byte
+	Cuts    []int
+	Toks    []c02tok
+	Kind    string
+	Suspend bool // one more run: Suspend/Resume right after the last read
+	Burst   int  // ms of simulated time that pass while the unpolled burst sits in the queues
 }
 
 func exact(s string) func(string) bool { return func(g string) bool { return g == s } }
@@ -186,7 +188,17 @@ func drawC02(t *rapid.T) *c02plan {
 		}
 	} else {
 		p.Kind = "bytes"
+		legacy := ""
+		if rapid.IntRange(0, 2).Draw(t, "legacy") == 0 {
+			// a legacy multi-byte locale: characters are two to four bytes
+			// with lead and trail bytes in overlapping ranges
+			legacy = rapid.SampledFrom([]string{"Shift_JIS", "EUC-JP", "GBK", "GB18030", "Big5", "EUC-KR", "ISO8859-1", "KOI8-R"}).Draw(t, "charset")
+			p.Cfg.Locale = "en_US." + legacy
+		}
 		alphabet := []byte("\x1b\x1b\x1b[[[O<;;0123456789Mm~IO]\\\x07\x9b\xc3\xa9\xe4\xb8\xad\x7f\x00\x08\x0d abAB?$^")
+		if legacy != "" {
+			alphabet = append(alphabet, "\x81\x83\x5c\x40\xa4\xa2\xb0\xa1\x8e\x8f\xe0\x81\x30\x81\x30\xfe\x39\x82\xa0\x88\xea"...)
+		}
 		n := rapid.IntRange(1, 40).Draw(t, "nbytes")
 		for i := 0; i < n; i++ {
 			if rapid.IntRange(0, 3).Draw(t, "rawbyte") == 0 {
@@ -201,6 +213,8 @@ func drawC02(t *rapid.T) *c02plan {
 		p.Kind = "bytes"
 		p.Toks = nil
 	}
+	p.Burst = rapid.SampledFrom([]int{0, 0, 60, 200}).Draw(t, "burstms")
+	p.Suspend = rapid.IntRange(0, 3).Draw(t, "suspend") == 0
 	ncut := rapid.IntRange(1, 11).Draw(t, "ncuts")
 	for i := 0; i < ncut && len(p.Bytes) > 1; i++ {
 		p.Cuts = append(p.Cuts, rapid.IntRange(1, len(p.Bytes)-1).Draw(t, "cut"))
@@ -218,7 +232,11 @@ type c02result struct {
 
 // decodeStream runs the bytes through a fresh screen, cut at cuts, with the
 // clock held between chunks, then lets the timeout pass and sends a sentinel.
-func decodeStream(cfg hx.Config, ch *simrt.Chooser, b []byte, cuts []int, rec bool) (*c02result, error) {
+// With burst >= 0 the chunks are instead delivered as back-to-back reads
+// while nobody polls (burst ms of simulated time pass meanwhile).
+// burst == -2: as -1, then the application suspends and resumes the screen
+// before any timeout has passed (whatever was pending is dropped).
+func decodeStream(cfg hx.Config, ch *simrt.Chooser, b []byte, cuts []int, rec bool, burst int) (*c02result, error) {
 	w, err := newIW(cfg, ch)
 	if err != nil {
 		return nil, err
@@ -229,14 +247,33 @@ func decodeStream(cfg hx.Config, ch *simrt.Chooser, b []byte, cuts []int, rec bo
 		isCut[c] = true
 	}
 	start := 0
+	var chunks [][]byte
 	for i := 1; i <= len(b); i++ {
 		if i == len(b) || isCut[i] {
-			w.feedHold(b[start:i])
+			if burst >= 0 {
+				chunks = append(chunks, b[start:i])
+			} else {
+				w.feedHold(b[start:i])
+			}
 			start = i
 			if i < len(b) {
 				w.Tty.Faults.Inc("read_split")
 			}
 		}
+	}
+	if burst >= 0 {
+		w.feedBurst(chunks, burst)
+	}
+	var srErr error
+	if burst == -2 {
+		w.S.Spawn("suspend-resume", func() {
+			_ = w.Scr.Suspend()
+			srErr = w.Scr.Resume()
+		})
+		if st := w.S.RunUntil(nil, w.S.Now()+1); st == simrt.Budget {
+			w.stall = true
+		}
+		w.Tty.Faults.Inc("suspend_resume")
 	}
 	w.settle()
 	res := &c02result{}
@@ -245,6 +282,9 @@ func decodeStream(cfg hx.Config, ch *simrt.Chooser, b []byte, cuts []int, rec bo
 	w.settle()
 	res.sentinel = w.take()
 	res.stall = w.stall
+	if srErr != nil {
+		res.panics = append(res.panics, "Resume failed: "+srErr.Error())
+	}
 	res.sig = w.S.Hash()
 	if rec {
 		hx.St.Record(w.S, w.Tty.Faults.Map(), func() interface{} {
@@ -252,7 +292,7 @@ func decodeStream(cfg hx.Config, ch *simrt.Chooser, b []byte, cuts []int, rec bo
 		})
 	}
 	pn, cerr := w.finish()
-	res.panics = pn
+	res.panics = append(res.panics, pn...)
 	return res, cerr
 }
 
@@ -263,15 +303,32 @@ func runC02(t *rapid.T) {
 	p := drawC02(t)
 	chA := &simrt.Chooser{}
 	chB := hx.DrawChooser(t, 60)
+	chC := hx.DrawChooser(t, 60)
+	chD := hx.DrawChooser(t, 30)
 	hx.Arm("C02")
 	defer hx.Disarm()
-	a, err := decodeStream(p.Cfg, chA, p.Bytes, nil, false)
+	a, err := decodeStream(p.Cfg, chA, p.Bytes, nil, false, -1)
 	if err != nil {
 		t.Fatalf("HARNESS: %v", err)
 	}
-	b, err := decodeStream(p.Cfg, chB, p.Bytes, p.Cuts, true)
+	b, err := decodeStream(p.Cfg, chB, p.Bytes, p.Cuts, true, -1)
 	if err != nil {
 		t.Fatalf("HARNESS: %v", err)
+	}
+	// the same chunks as back-to-back reads with the application not polling
+	c, err := decodeStream(p.Cfg, chC, p.Bytes, p.Cuts, true, p.Burst)
+	if err != nil {
+		t.Fatalf("HARNESS: %v", err)
+	}
+	// ... and with a Suspend/Resume right after the last read: pending input
+	// is dropped, so the events are a prefix of those of the quiet run, and
+	// nothing of the dropped input may colour what is typed afterwards
+	var d *c02result
+	if p.Suspend {
+		d, err = decodeStream(p.Cfg, chD, p.Bytes, p.Cuts, true, -2)
+		if err != nil {
+			t.Fatalf("HARNESS: %v", err)
+		}
 	}
 	var f *hx.Failure
 	fail := func(tag, format string, args ...interface{}) {
@@ -279,7 +336,7 @@ func runC02(t *rapid.T) {
 			f = &hx.Failure{Tag: tag, Msg: fmt.Sprintf("%s input %q: ", p.Cfg.Term, p.Bytes) + fmt.Sprintf(format, args...)}
 		}
 	}
-	for _, r := range []*c02result{a, b} {
+	for _, r := range []*c02result{a, b, c} {
 		for _, pn := range r.panics {
 			fail("C02/panic", "decoding panics: %s", pn)
 		}
@@ -289,6 +346,9 @@ func runC02(t *rapid.T) {
 	}
 	if strings.Join(a.evs, " ") != strings.Join(b.evs, " ") {
 		fail("C02/partition", "delivered in one read: %v; cut at %v: %v", a.evs, p.Cuts, b.evs)
+	}
+	if strings.Join(a.evs, " ") != strings.Join(c.evs, " ") {
+		fail("C02/partition", "delivered in one read: %v; cut at %v and read back to back while the application was not polling (%d ms): %v", a.evs, p.Cuts, p.Burst, c.evs)
 	}
 	if p.Kind == "tokens" {
 		ok := true
@@ -326,7 +386,18 @@ func runC02(t *rapid.T) {
 			}
 		}
 	}
-	for i, r := range []*c02result{a, b} {
+	if d != nil {
+		for _, pn := range d.panics {
+			fail("C02/panic", "decoding with a Suspend/Resume panics: %s", pn)
+		}
+		if len(d.evs) > len(a.evs) || strings.Join(d.evs, " ") != strings.Join(a.evs[:len(d.evs)], " ") {
+			fail("C02/partition", "delivered in one read: %v; cut at %v, then Suspend and Resume before any timeout: %v (not a prefix)", a.evs, p.Cuts, d.evs)
+		}
+		if len(d.sentinel) != 1 || d.sentinel[0] != runeDesc('Q', 0) {
+			fail("C02/residue", "after Suspend, Resume and the escape timeout a fresh 'Q' decoded to %v (cuts %v, events before: %v): input from before the Suspend still colours it", d.sentinel, p.Cuts, d.evs)
+		}
+	}
+	for i, r := range []*c02result{a, b, c} {
 		if len(r.sentinel) != 1 || r.sentinel[0] != runeDesc('Q', 0) {
 			fail("C02/residue", "after the escape timeout a fresh 'Q' decoded to %v (run %d, cuts %v, events before: %v): something stayed buffered", r.sentinel, i, p.Cuts, r.evs)
 		}
